@@ -88,8 +88,10 @@ Residuals(s, coef, shift, bps) ==
 RECURSIVE TrailingZeros(_, _)
 TrailingZeros(v, cap) == IF cap = 0 \/ v % 2 = 1 THEN 0 ELSE 1 + TrailingZeros(v \div 2, cap - 1)
 MinSeq(s) == FoldLeft(LAMBDA a, x : IF x < a THEN x ELSE a, s[1], s)
-SubframeBits(sub, ch, bs, bps0) ==
+SubframeBits(sub, ch0, bs, bps0) ==
     LET ov == Get(sub, "ov", [none |-> 0])
+        \* "samples" override: arbitrary channel values (e.g. a side channel unrelated to left / right)
+        ch == IF Has(ov, "samples") THEN [i \in 1..bs |-> ov.samples[((i - 1) % Len(ov.samples)) + 1]] ELSE ch0
         nz == {i \in 1..bs : ch[i] # 0}
         avail == IF nz = {} THEN 0 ELSE MinSeq([i \in 1..bs |-> IF ch[i] = 0 THEN 32 ELSE TrailingZeros(ch[i], 32)])
         w0 == Get(sub, "wasted", 0)
